@@ -14,7 +14,7 @@ func sizeList(tier string) []int {
 	if tier == "thorough" {
 		return []int{1, 4095, 4096, 4097, 1048575, 1048576, 1048577, 2109497, 3145728}
 	}
-	return []int{1, 4097, 1048577}
+	return []int{1, 4097, 1048576, 1048577}
 }
 
 func init() {
